@@ -45,6 +45,7 @@ type boxWrite struct {
 	Pool     string
 	Epoch    int
 	Versions int // configuration versions delivered when the write happened
+	Phase    string // relative to the first successful full sync of the running instance
 }
 
 type boxMonFlags struct {
@@ -79,6 +80,7 @@ type cbox struct {
 	epoch     int
 	conflicts int
 	booted    bool
+	fullSyncs int // successful reprocessAll passes of the running instance
 	handlerCalls int
 }
 
@@ -154,6 +156,12 @@ func (cb *cbox) boot(k *boxKernel) {
 	cb.lis = &k8s.Listener{ServiceChanged: cb.ctl.SetBalancer, PoolChanged: cb.ctl.SetPools}
 	cb.reload = make(chan event.GenericEvent, 4096)
 	cb.cur = nil
+	cb.fullSyncs = 0
+	k.OnDone = func(rec string, req ctrl.Request, err error) {
+		if rec == "svc" && req == boxReloadReq && err == nil {
+			cb.fullSyncs++
+		}
+	}
 	logger := log.NewNopLogger()
 	lis := cb.lis
 	cb.svcRec = &controllers.ServiceReconciler{
